@@ -251,8 +251,13 @@ fn stateless(t: &[&str]) -> Option<String> {
                 Ok(x) => hex_out(&x),
                 Err(_) => "err".to_string(),
             };
+            // from_str(print(h)) == h and h == from_str(print(h)), with the type's own equality
+            let rteq = match Hex::from_str(&h.print()) {
+                Ok(x) => format!("{}{}", u8::from(x == h), u8::from(h == x)),
+                Err(_) => "err".to_string(),
+            };
             format!(
-                "len={} bytes={} print={} empty={} vec={} i64={} f64={} rt={}",
+                "len={} bytes={} print={} empty={} vec={} i64={} f64={} rt={} rteq={}",
                 h.len(),
                 hexs(h.bytes()),
                 text_out(&h.print()),
@@ -261,7 +266,8 @@ fn stateless(t: &[&str]) -> Option<String> {
                 h.to_i64().map_or("err".to_string(), |x| x.to_string()),
                 h.to_f64()
                     .map_or("err".to_string(), |x| format!("{:016x}", x.to_bits())),
-                rt
+                rt,
+                rteq
             )
         }
         "HEXIDX" => {
